@@ -29,7 +29,7 @@ type C04Config struct {
 	Auth      string `json:"auth"`       // "" | "user:pass" | "user:p:w:x"
 	Deny      bool   `json:"deny"`       // deny-domains list configured
 	Localhost string `json:"localhost"`  // deny | allow
-	TimeFrame string `json:"time_frame"` // "" | in | out
+	TimeFrame string `json:"time_frame"` // "" | in | out | gap | edge-in | split-in (the last three are built around the current hour)
 	MITM      bool   `json:"mitm"`
 }
 
@@ -65,7 +65,7 @@ func genC04(t *rapid.T) C04Case {
 	c.Cfg.Auth = rapid.SampledFrom([]string{"", "user:pass", "user:pass", "user:p:w:x"}).Draw(t, "auth")
 	c.Cfg.Deny = rapid.Bool().Draw(t, "deny")
 	c.Cfg.Localhost = rapid.SampledFrom([]string{"deny", "deny", "allow"}).Draw(t, "localhost")
-	c.Cfg.TimeFrame = rapid.SampledFrom([]string{"", "", "in", "out"}).Draw(t, "timeframe")
+	c.Cfg.TimeFrame = rapid.SampledFrom([]string{"", "", "in", "out", "gap", "edge-in", "split-in"}).Draw(t, "timeframe")
 	c.Cfg.MITM = rapid.IntRange(0, 3).Draw(t, "mitm") == 0
 	n := rapid.IntRange(1, 4).Draw(t, "nreqs")
 	inTunnel := false
@@ -109,6 +109,7 @@ type c04Env struct {
 	dialable map[string]bool // local spellings that a plain dial from this machine can reach
 	mu      sync.Mutex
 	proxies map[string]*ProxyInst
+	frames  map[string][]ruleset.TimeFrameEntry // allow-time-frame list each cached proxy was built with
 }
 
 var (
@@ -152,7 +153,7 @@ func env4LocalHosts() []string {
 
 func getEnv4() (*c04Env, error) {
 	env4Once.Do(func() {
-		e := &c04Env{ca: NewCA("verif C04 CA"), proxies: map[string]*ProxyInst{}, aliases: hostsFileLoopbackNames()}
+		e := &c04Env{ca: NewCA("verif C04 CA"), proxies: map[string]*ProxyInst{}, frames: map[string][]ruleset.TimeFrameEntry{}, aliases: hostsFileLoopbackNames()}
 		var err error
 		if e.local, err = StartPeer("local", "", nil, HTTPHandler(originResponder, nil)); err != nil {
 			env4Err = err
@@ -183,6 +184,48 @@ func getEnv4() (*c04Env, error) {
 	return env4, env4Err
 }
 
+// c04Frames builds allow-time-frame lists around the hour h of weekday d (the hour end is exclusive):
+// gap = the whole day except hour h; edge-in = hour h only; split-in = the day in two entries that meet at h+1.
+func c04Frames(kind string, now time.Time) []ruleset.TimeFrameEntry {
+	d, h := now.Weekday(), now.Hour()
+	var out []ruleset.TimeFrameEntry
+	add := func(a, b int) {
+		if a < b {
+			out = append(out, ruleset.TimeFrameEntry{Weekday: d, HourStart: a, HourEnd: b})
+		}
+	}
+	switch kind {
+	case "gap":
+		add(0, h)
+		add(h+1, 24)
+		if len(out) < 2 { // hour 0 or 23: keep it a two-entry list
+			out = append(out, ruleset.TimeFrameEntry{Weekday: (d + 1) % 7, HourStart: 0, HourEnd: 24})
+		}
+	case "edge-in":
+		add(h, h+1)
+	case "split-in":
+		add(0, h+1)
+		add(h+1, 24)
+	}
+	return out
+}
+
+// c04FramesAllow is the documented meaning: some entry covers the weekday and hour.
+func c04FramesAllow(fs []ruleset.TimeFrameEntry, t time.Time) bool {
+	for _, f := range fs {
+		if f.Weekday == t.Weekday() && t.Hour() >= f.HourStart && t.Hour() < f.HourEnd {
+			return true
+		}
+	}
+	return false
+}
+
+func (e *c04Env) framesOf(cfg C04Config) []ruleset.TimeFrameEntry {
+	e.mu.Lock()
+	defer e.mu.Unlock()
+	return e.frames[fmt.Sprintf("%+v", cfg)]
+}
+
 func (e *c04Env) proxy(cfg C04Config) (*ProxyInst, error) {
 	k := fmt.Sprintf("%+v", cfg)
 	e.mu.Lock()
@@ -206,7 +249,10 @@ func (e *c04Env) proxy(cfg C04Config) (*ProxyInst, error) {
 		}
 	case "out":
 		o.AllowTimeFrame = []ruleset.TimeFrameEntry{{Weekday: (now.Weekday() + 3) % 7, HourStart: 0, HourEnd: 24}}
+	case "gap", "edge-in", "split-in":
+		o.AllowTimeFrame = c04Frames(cfg.TimeFrame, now)
 	}
+	e.frames[k] = o.AllowTimeFrame
 	// DNS names are mapped to the named origins by port
 	o.ConnectTo = []string{
 		":" + e.named.Port + ":127.0.0.2:" + e.named.Port,
@@ -310,7 +356,7 @@ type c04Expect struct {
 
 func refDecide(e *c04Env, cfg C04Config, r C04Req) c04Expect {
 	x := c04Expect{codes: map[int]bool{}}
-	if cfg.TimeFrame == "out" {
+	if cfg.TimeFrame != "" && !c04FramesAllow(e.framesOf(cfg), time.Now()) {
 		x.codes[451] = true
 		x.reasons = append(x.reasons, "outside time frame")
 	}
